@@ -681,7 +681,9 @@ def oracle(case, res):
         fails.append(("C08:returned-ids", f"read_into returned {sorted(res['ids'])}"))
     # names of stored files that collide after normalisation (known defect class)
     stored_refs = {}
-    for i, (pn, o) in visited.items():
+    # every part the writer produced counts (also split parts and second copies of an object): a relative value
+    # resolves differently per part and all supplementary files share one package
+    for pn, o in [(pn, o) for pn, objs, _ in parts for o in objs.values()]:
         if isinstance(o, model.Submodel):
             for _, f in file_nodes(jdoc(o)):
                 v = f.get("value")
